@@ -291,7 +291,11 @@ class Ctx:
         return self.tier == 'thorough'
 
     def n(self, quick, thorough):
-        return thorough if self.thorough else quick
+        if self.thorough:
+            return thorough
+        # source-shape guard: an anchored function has another shape than the one the model was validated against
+        f = getattr(self, 'sample_factor', 1)
+        return quick if f == 1 else max(quick, min(thorough, quick * f))
 
     @property
     def driver(self):
